@@ -760,6 +760,13 @@ func corners() []Input {
 		w.WithAs = v
 		out = append(out, w)
 	}
+	// blank fields: mirrored as `_ T`, passed over by the copy loop (repair adc955a); also a blank container and an omitted blank
+	out = append(out, one([]Field{fld("A", basic("int"), `json:"a"`), fld("_", basic("int"), `json:"-"`), fld("B", slice(basic("string")), "")}, Spec{}))
+	out = append(out, one([]Field{fld("_", slice(named("lib", "Item")), ""), fld("A", named("origin", "Inner"), ""), fld("_", basic("bool"), `pad:"1"`)}, Spec{}))
+	out = append(out, one([]Field{fld("A", basic("int"), ""), fld("_", mapOf(basic("string"), basic("int")), "")}, Spec{Omit: []string{"_"}}))
+	bl := one([]Field{fld("A", basic("int"), ""), fld("_", aItems, ""), fld("_", basic("int"), "")}, Spec{})
+	bl.Groups[0].Specs[0].RHS = "local"
+	out = append(out, bl)
 	// everything omitted; nothing enabled
 	out = append(out, one([]Field{fld("A", basic("int"), ""), fld("B", basic("string"), "")}, Spec{Omit: []string{"A", "B"}}))
 	d := one([]Field{fld("A", basic("int"), "")}, Spec{})
